@@ -25,6 +25,7 @@ func Configs(thorough bool) []Cfg {
 		{stacks.Config{Kind: "map", InnerMTU: 64}, [][2]int{{3, 64}}},
 		{stacks.Config{Kind: "wl", InnerMTU: 64}, [][2]int{{3, 64}}},
 		{stacks.Config{Kind: "p2pke"}, [][2]int{{0, 100}}},
+		{stacks.Config{Kind: "udp"}, [][2]int{{0, 100}}},
 	}
 	if thorough {
 		list = []sk{
@@ -45,6 +46,8 @@ func Configs(thorough bool) []Cfg {
 			{stacks.Config{Kind: "mux-frag", InnerMTU: 40, MTU: 100}, [][2]int{{30, 10}}},
 			{stacks.Config{Kind: "mbapp-mux", InnerMTU: 64, MTU: 200}, [][2]int{{40, 10}}},
 			{stacks.Config{Kind: "multi-p2pke"}, [][2]int{{5, 60}}},
+			{stacks.Config{Kind: "udp"}, [][2]int{{0, 1280}, {1, 500}}},
+			{stacks.Config{Kind: "p2pke-udp"}, [][2]int{{3, 100}}},
 		}
 	}
 	for _, s := range list {
